@@ -65,6 +65,14 @@ impl<'a> Model<'a> {
     }
 }
 
+#[cfg(corgi_verif)]
+impl<'a> Model<'a> {
+    /// Verification hook (only built with `--cfg corgi_verif`): read access to the parameters of every layer.
+    pub fn verif_parameters(&mut self) -> Vec<&mut Array> {
+        self.parameters()
+    }
+}
+
 #[cfg(test)]
 mod tests {
     use core::ops::FnMut;
